@@ -161,6 +161,29 @@ def run(ctx):
                         ncompose += check_compose(ctx, api, dump, w, True)
                     finally:
                         FILTER['timebase'] = None
+        # the SAME object and the SAME code-table object list another dump first (dangling halves of announcements in both):
+        # the lines of this dump are those a new object prints for it (nothing of the earlier dump names a process here)
+        if i % 2 == 0:
+            from .pairing import default_codes
+            tab = dict(default_codes())
+            wa, da = gen_dump(rnd, world=w, orphans=0.6)
+            wb, db = gen_dump(rnd, world=w, orphans=0.6)
+            try:
+                pp = PyKdebugParser()
+                pp.color = False
+                for _ in pp.formatted_traces(io.BytesIO(da.blob), tab):
+                    pass
+                got_ = [str(x) for x in pp.formatted_traces(io.BytesIO(db.blob), tab)]
+                pf = PyKdebugParser()
+                pf.color = False
+                want_ = [str(x) for x in pf.formatted_traces(io.BytesIO(db.blob), dict(tab))]
+            except Exception as ex:
+                got_, want_ = ['raised %r' % ex], []
+            if got_ != want_:
+                d_ = next((k for k in range(max(len(got_), len(want_))) if k >= len(got_) or k >= len(want_) or got_[k] != want_[k]), 0)
+                ctx.violation('C14/process-column/after-another-dump', 'after another dump was listed with the same object and code table, line %d reads %r; a new object prints %r'
+                              % (d_, got_[d_] if d_ < len(got_) else None, want_[d_] if d_ < len(want_) else None),
+                              {'kind': 'pipeline', 'file_hex': db.blob.hex(), 'stream': describe(wb, db.stream)})
         # process column parsed from the formatted lines, identities from a parallel traces() run
         p = PyKdebugParser()
         r, _ = request(w, p, dump, 'traces')
